@@ -450,27 +450,18 @@ Fixpoint g_enter (path : list N) (f : N) (kids : list gnode) : list gnode :=
          | G n k ks :: r => if (n =? p)%N then G n k (g_enter path' f ks) :: r else G n k ks :: go r
          end) kids
   end.
-(* cur = Some path: names from the root down to the current node; None: tg->node == NULL after an
-   EXIT at the root (start_graph() re-arms only once), every later ENTRY/EXIT is ignored *)
-Fixpoint graph_build (evs : list (bool * N)) (cur : option (list N)) (kids : list gnode) : list gnode :=
+(* path = names from the root down to the current node; an EXIT at the root stays at the root
+   (add_graph_exit keeps tg->node when node->parent == NULL) *)
+Fixpoint graph_build (evs : list (bool * N)) (path : list N) (kids : list gnode) : list gnode :=
   match evs with
   | [] => kids
-  | (false, f) :: r =>
-      match cur with
-      | Some path => graph_build r (Some (path ++ [f])) (g_enter path f kids)
-      | None => graph_build r None kids
-      end
-  | (true, _) :: r =>
-      match cur with
-      | Some [] => graph_build r None kids
-      | Some path => graph_build r (Some (removelast path)) kids
-      | None => graph_build r None kids
-      end
+  | (false, f) :: r => graph_build r (path ++ [f]) (g_enter path f kids)
+  | (true, _) :: r => graph_build r (removelast path) kids
   end.
 Fixpoint g_flat (d : N) (g : gnode) : list (N * N * N) :=
   match g with G n k ks => (d, n, k) :: flat_map (g_flat (d + 1)) ks end.
 Definition graph_of (evs : list vev) : list (N * N * N) :=
-  flat_map (g_flat 0) (graph_build (map ob_n evs) (Some []) []).
+  flat_map (g_flat 0) (graph_build (map ob_n evs) [] []).
 Definition tri_eqb (a b : N * N * N) : bool :=
   let '(x, y, z) := a in let '(x', y', z') := b in ((x =? x') && (y =? y') && (z =? z'))%N.
 
